@@ -11,6 +11,7 @@ import (
 	"golang.org/x/crypto/openpgp"
 	"golang.org/x/crypto/openpgp/packet"
 	_ "golang.org/x/crypto/ripemd160" // makes crypto.RIPEMD160 available to the package under test
+	"verif/mon"
 	"verif/ref/pgpfmt"
 )
 
@@ -80,6 +81,7 @@ type key struct {
 	// fraction of its private-key operations with this key.
 	tainted  bool
 	exported []byte // SerializePrivate output (go-made keys)
+	pubSnap  []byte // Entity.Serialize output at setup (verified unchanged at the end)
 }
 
 func (k *key) email() string { return strings.ToLower(k.name) + "@example.com" }
@@ -210,6 +212,7 @@ func newKeyset() (*keyset, error) {
 			return nil, fmt.Errorf("ReadKeyRing(Serialize(%s)): %v", k.name, err)
 		}
 		ks.pub = append(ks.pub, pe[0])
+		k.pubSnap = append([]byte(nil), pb.Bytes()...)
 		ks.owner[k.ent.PrimaryKey.KeyId] = k
 		for _, s := range k.ent.Subkeys {
 			ks.owner[s.PublicKey.KeyId] = k
@@ -240,6 +243,20 @@ func newKeyset() (*keyset, error) {
 }
 
 func (ks *keyset) close() { ks.g.close() }
+
+// verifyKeysUnchanged: the entities handed to every call of the run still
+// serialise to the same public key as at setup (the package must not modify
+// caller-owned keys while encrypting, signing, reading).
+func (ks *keyset) verifyKeysUnchanged(m *mon.M) {
+	for _, k := range ks.keys {
+		var pb bytes.Buffer
+		err := k.ent.Serialize(&pb)
+		m.Count("key_snapshots_verified", 1)
+		if err != nil || !bytes.Equal(pb.Bytes(), k.pubSnap) {
+			m.Violation("package-modifies-caller-input:entity", map[string]any{"key": k.name, "err": fmt.Sprint(err), "before": mon.FullHex(k.pubSnap), "after": mon.FullHex(pb.Bytes())})
+		}
+	}
+}
 
 // secretKeyIssues parses every RSA secret (sub)key packet of a transferable
 // secret key with the reference parser and lists the RFC 4880 §5.5.3
